@@ -10,6 +10,21 @@ from snaxc.dialects import snax
 from snaxc.util.dispatching_rules import dispatch_to_compute, dispatch_to_dm
 
 
+def _pending_after_barrier(ops_to_sync: list[Operation], barrier: Operation) -> list[Operation]:
+    """A barrier only orders the operations that cannot be reached without passing it:
+    those in the barrier's own block (or nested in an op of that block). Operations outside
+    of it stay pending, because the enclosing loop / branch may not execute at all."""
+    block = barrier.parent_block()
+    pending: list[Operation] = []
+    for op in ops_to_sync:
+        parent: Operation | None = op
+        while parent is not None and parent.parent_block() is not block:
+            parent = parent.parent_op()
+        if parent is None:
+            pending.append(op)
+    return pending
+
+
 def _innermost_common_for(a: Operation, b: Operation) -> scf.ForOp | None:
     """The innermost scf.for that encloses both operations (its back-edge connects them)."""
     ancestors: set[Operation] = set()
@@ -37,7 +52,7 @@ class InsertSyncBarrier(ModulePass):
         assert isinstance(ctx, AccContext)
         rewriter = Rewriter()
 
-        ops_to_sync = []
+        ops_to_sync: list[Operation] = []
 
         ## walk the entire module in order
         for op_in_module in op.walk():
@@ -48,11 +63,11 @@ class InsertSyncBarrier(ModulePass):
                 rewriter.insert_op(sync_op, InsertPoint.before(op_in_module))
 
                 # clear the list
-                ops_to_sync = []
+                ops_to_sync = _pending_after_barrier(ops_to_sync, sync_op)
 
             if isinstance(op_in_module, snax.ClusterSyncOp):
                 # synchronisation ok, clear list
-                ops_to_sync: list[Operation] = []
+                ops_to_sync = _pending_after_barrier(ops_to_sync, op_in_module)
 
             # check all operands of current op
             for operand in [*op_in_module.operands, *op_in_module.results]:
